@@ -65,6 +65,19 @@ Bad(c) ==
   \* as many of them are shown as there are groups at or above the threshold
   \cup (IF c.nrefrows # Cardinality({g \in 1..Len(c.refvals) : Shown(RefGroupItem, c.refvals[g], c.thr)})
         THEN {"refgroup_rows_shown_iff_threshold"} ELSE {})
+  \* ... and each of those rows renders the count of one of those groups (unit-less, powers of 1000), with its
+  \* marker: some one-to-one assignment of the rows to the shown groups fits (up to 6 rows; more are not matched here)
+  \cup (LET shownG == {g \in 1..Len(c.refvals) : Shown(RefGroupItem, c.refvals[g], c.thr)}
+            n == Len(c.refrows)
+            Fits(r, g) == LET row == c.refrows[r]  v == c.refvals[g] IN
+                          /\ ValueCellOK(RefGroupItem, v, row)
+                          /\ row.unit = ""
+                          /\ IF Bangs(RefGroupItem, v) THEN row.bangs ELSE ~row.bangs /\ StarsOK(RefGroupItem, v, row.stars)
+        IN IF n = 0 \/ n > 6 \/ n # Cardinality(shownG) THEN {}
+           ELSE IF \E f \in [1..n -> shownG] :
+                      /\ \A i, j \in 1..n : i # j => f[i] # f[j]
+                      /\ \A i \in 1..n : Fits(i, f[i])
+                THEN {} ELSE {"refgroup_row_not_rendering_of_a_group_count"})
   \* footnotes
   \cup (LET cites == [r \in 1..Len(c.rows) |-> c.rows[r].cite] IN
         IF ~FootnotesOK(cites, c.foot) THEN {"footnote_numbering"} ELSE {})
